@@ -107,4 +107,16 @@ def _version_runs(rep):
     return bool(res["rejected"])
 
 
-REPLAYERS = {"gate_script": _gate_script, "version_runs": _version_runs, "handshake": _handshake, "handshake_server": _handshake_server, "dispatch_case": _dispatch_case, "session_ops": _session_ops, "errorclass_case": _errorclass_case, "errorclass_sets": _errorclass_sets}
+def _framing(rep):
+    from harness.props import framing
+    from harness.drivers import stdio_drv
+    t = stdio_drv.run_framing([(rep["lines"], rep.get("tail"), rep["sizes"])])
+    print(json.dumps(t[0]["ev"]))
+    consts = dict(framing.TREE)
+    consts.update({"Upto": ("<-", "TraceUpto"), "Streams": set(), "MaxCuts": 0})
+    res = validate.two_stage("StdioFramingTrace", [{k: v for k, v in t[0].items() if k != "kinds"}], consts, work=os.path.join(tlc.WORK, "replay_fr"), jobs=1)
+    print("verdict:", res["verdict"][0])
+    return rep["clause"] in res["verdict"][0]["clauses"]
+
+
+REPLAYERS = {"framing": _framing, "gate_script": _gate_script, "version_runs": _version_runs, "handshake": _handshake, "handshake_server": _handshake_server, "dispatch_case": _dispatch_case, "session_ops": _session_ops, "errorclass_case": _errorclass_case, "errorclass_sets": _errorclass_sets}
